@@ -67,22 +67,26 @@ Step ==
          main == StepOK(pl, Num(e))
          viaStale == AsIs /\ ps.set /\ (Num(e) = Succ(ps) \/ WrapOK(ps, Num(e)))
          v0 == IF Fresh(e) THEN "ok" ELSE verdict
+         mainOK == contig /\ main
+         \* a chunk that does not continue the stream of the instance in use but the counter of the
+         \* superseded instance belongs to that instance's stream (AsIs): it neither advances the
+         \* main counter nor the message that is open on the main stream
          v == IF v0 # "ok" THEN v0
-              ELSE IF ~contig THEN "interleaved"
-              ELSE IF main THEN "ok"
-              ELSE IF viaStale THEN "stale" ELSE "step"
+              ELSE IF mainOK THEN "ok"
+              ELSE IF viaStale THEN "stale"
+              ELSE IF ~contig THEN "interleaved" ELSE "step"
      IN /\ verdict' = v
         /\ at' = IF v0 = "ok" /\ v # "ok" THEN (IF Fresh(e) THEN 1 ELSE cnt + 1) ELSE (IF Fresh(e) THEN 0 ELSE at)
         /\ cnt' = IF Fresh(e) THEN 1 ELSE cnt + 1
         /\ tr' = e.tr
-        /\ open' = [x \in Dirs |-> IF x = d THEN [req |-> e.req, i |-> e.i, n |-> e.n] ELSE O(x, e)]
-        \* a renewal's OPN chunk (not the first chunk of the direction) supersedes the instance in use:
-        \* the old instance's counter stays at the previous number
-        /\ IF (~main) /\ viaStale
+        /\ IF (~mainOK) /\ viaStale
            THEN /\ stale' = [x \in Dirs |-> IF x = d THEN Num(e) ELSE S(x, e)]
                 /\ last' = [x \in Dirs |-> L(x, e)]
+                /\ open' = [x \in Dirs |-> O(x, e)]
            ELSE /\ last' = [x \in Dirs |-> IF x = d THEN Num(e) ELSE L(x, e)]
-                \* (when the trace starts with the OPN chunk the old counter is the number before it)
+                /\ open' = [x \in Dirs |-> IF x = d THEN [req |-> e.req, i |-> e.i, n |-> e.n] ELSE O(x, e)]
+                \* a renewal's OPN chunk supersedes the instance in use: the old instance's counter stays at
+                \* the previous number (when the trace starts with the OPN chunk: the number before it)
                 /\ stale' = [x \in Dirs |-> IF x = d /\ e.type = "OPN" THEN (IF pl.set THEN pl ELSE Pred(Num(e))) ELSE S(x, e)]
         /\ l' = l + 1
 
